@@ -38,6 +38,7 @@ struct Config {
     bool lazy_h2d = false;     // SYCL buffer(ptr,n): copy at first device use instead of at construction
     bool fence = true;         // device memory inaccessible to the host outside device operations
     int warp = 32;             // H2 knob: block size the host code uses in context mode
+    bool geometry_only = false; // validate the launch geometry against the expected output size without executing threads (huge outputs)
     static const char* order_name(int o) { static const char* n[] = {"ascending", "descending", "block_round_robin", "blocks_reversed", "out_of_range_first", "random"}; return n[o % 6]; }
 };
 
@@ -52,7 +53,8 @@ struct Launch {
 
 class Device {
 public:
-    Device() : heap_("dev", 4u << 20) {}
+    static constexpr size_t ARENA = (size_t)1 << 29;   // virtual; only touched pages are committed (the geometry probe needs 2^24+1 elements)
+    Device() : heap_("dev", ARENA) {}
     SimHeap& heap() { return heap_; }
     Config cfg;
     Stats stats;
@@ -112,6 +114,13 @@ public:
         stats.launches++;
         if (l.block == 0 || l.block > 1024 || l.grid == 0) { fail("SHIM_LAUNCH_CONFIG", "launch configuration grid=" + std::to_string(l.grid) + " block=" + std::to_string(l.block) + " is not valid", key_prefix() + "SHIM_LAUNCH_CONFIG"); return; }
         trace().ev("launch " + l.what + " grid=" + std::to_string(l.grid) + " block=" + std::to_string(l.block) + (cfg.defer ? " deferred" : " eager"));
+        if (cfg.geometry_only) {
+            kernel_ran = true;
+            if ((size_t)l.grid * l.block < expect_n)
+                fail("LAUNCH_TOO_SMALL", "the launch has " + std::to_string((size_t)l.grid * l.block) + " threads (grid " + std::to_string(l.grid) + " x block " + std::to_string(l.block) + ") for an output of " + std::to_string(expect_n) + " elements", key_prefix() + "LAUNCH_TOO_SMALL");
+            probe("dev.geometry_only_launches");
+            return;
+        }
         pending_.push_back(std::move(l));
         if (!cfg.defer) sync("eager");
     }
@@ -134,7 +143,7 @@ private:
     std::deque<Launch> pending_;
     std::vector<char> init_;     // per block: host-initialised (operand / shape buffer) or not (output)
     int depth_ = 0; bool fenced_ = false; bool running_ = false;
-    size_t arena_bytes() const { return 4u << 20; }
+    size_t arena_bytes() const { return ARENA; }
 
     bool range_ok(const void* p, size_t n) const {
         int id = heap_.block_of(p);
